@@ -1237,6 +1237,12 @@ class Function(Ring):
     def vecsym(self):
         return Function.pushforward(algopy.vecsym, [self])
 
+    def minimum(self, other):
+        return Function.pushforward(algopy.minimum, [self, other])
+
+    def maximum(self, other):
+        return Function.pushforward(algopy.maximum, [self, other])
+
     def reshape(self, shape):
         return Function.pushforward(algopy.reshape, [self, shape])
 
